@@ -200,6 +200,8 @@ CLASSES3["StreamsInfo"] = {"packinfo": "opt:PackInfo", "unpackinfo": "opt:Unpack
 CLASSES3["FileEntry"] = {"emptystream": "bool", "emptyfile": "key:bool", "filename": "key:str", "creationtime": "key:optint",
                          "lastaccesstime": "key:optint", "lastwritetime": "key:optint", "attributes": "key:optint"}
 CLASSES3["FilesInfo"] = {"files": "list:FileEntry", "emptyfiles": "boollist"}
+# HeaderStreamsInfo(StreamsInfo): the same three attributes (its __init__ fills two of them; it is not translated)
+CLASSES3["HeaderStreamsInfo"] = {"packinfo": "opt:PackInfo", "unpackinfo": "opt:UnpackInfo", "substreamsinfo": "opt:SubstreamsInfo"}
 CLASSES3["SignatureHeader"] = {"version": "tuple:bytes,bytes", "startheadercrc": "int", "nextheaderofs": "int",
                                "nextheadersize": "int", "nextheadercrc": "int"}
 DICT_RECORDS = ("Coder", "FileEntry")                  # records that are Python dicts with string keys
@@ -293,6 +295,9 @@ for _key in ("creationtime", "lastaccesstime", "lastwritetime"):
     WAVE2["FilesInfo._write_times[%s]" % _key]["qual"] = "FilesInfo._write_times"
 # FilesInfo.write pads to a multiple of 4 from file.tell(): the position at entry is the explicit parameter pos0
 _rec3("FilesInfo.write", "objwriter", "FilesInfo", "FilesInfo_write", tell=True, locals={"emptystreams": "boollist"})
+# the descriptor of an encoded header
+_rec3("HeaderStreamsInfo", "record", "HeaderStreamsInfo", "HeaderStreamsInfo")
+_rec3("HeaderStreamsInfo.write", "objwriter", "HeaderStreamsInfo", "HeaderStreamsInfo_write", init_of="StreamsInfo")
 # stage 4, part 2: SignatureHeader (calccrc, write, _write_skeleton; the bytes go to offset 0: file.seek(0, 0) comes first)
 def _sig(name, kind, coqname, **kw):
     WAVE2[name] = dict(file="archiveinfo.py", qual=name, kind=kind, cls="SignatureHeader", coqname=coqname, out="ArchiveinfoSig",
@@ -1447,6 +1452,10 @@ class FnTr:
         """second wave: method calls"""
         f, args = e.func, e.args
         if e.keywords:
+            if f.attr == "write" and self.io == "out" and isinstance(f.value, ast.Name) and f.value.id.startswith("self_"):
+                r3 = self.record_call(e, self.dotted(f))       # self.x.write(file, k=v): keywords matched against the callee
+                if r3 is not None:
+                    return r3
             self.refuse(e, "keyword arguments")
         d = self.dotted(f)
         if d == "struct.pack" and self.is_module("struct") and len(args) == 2 and isinstance(args[0], ast.Constant) \
@@ -2723,7 +2732,8 @@ class FnTr:
             for n in self.local_names():
                 if n.startswith("self_") or n in ("inp", "out"):
                     self.refuse(node, "a variable named " + n)
-            ini = init_fields(self.module, self.spec["cls"])
+            # init_of: the class whose __init__ sets the attributes (a subclass that calls super().__init__() first)
+            ini = init_fields(self.module, self.spec.get("init_of", self.spec["cls"]))
             for f in self.fields:
                 if f in ini:
                     continue
